@@ -281,7 +281,7 @@ func (p *c12) Init(tier string, seed int64) {
 	sort.Strings(p.progFilters)
 }
 
-func (p *c12) N() int { return p.nEnum + p.nRand + p.nProg }
+func (p *c12) N() int { return p.nEnum + p.nRand + p.nProg + c12nCustom }
 
 // c12ProgContext: every string that can reach a print is a hostile payload.
 func c12ProgContext(r *rand.Rand) map[string]stick.Value {
@@ -450,7 +450,67 @@ func (p *c12) payloadsFor(i int) []string {
 	return out
 }
 
+// c12nCustom: an application's own escaper, registered with the extension under its own content type - before the
+// extension is registered with the environment and after it (the extension's Escapers table is exported: that is how
+// an escaper is registered) - for templates named after that type, by themselves and included from an html page.
+const c12nCustom = 2 * 3
+
+// c12json is an application's escaper: everything comes out as hexadecimal digits in brackets (inert anywhere,
+// and decodable: nothing is lost, nothing is escaped twice unnoticed).
+func c12json(s string) string { return fmt.Sprintf("[%x]", s) }
+
+func (p *c12) runCustom(res *fw.Result, j int) {
+	late, shape := j%2 == 1, j/2
+	tpls := map[string]string{
+		"d.json":         "{{ v }}|{% if true %}{{ v }}{% endif %}|{% for i in 1..2 %}{{ v }}{% endfor %}|{% block b %}{{ v }}{% endblock %}|{% set c %}{{ v }}{% endset %}{{ v|escape('json') }}|{{ v|escape('html') }}|{% include 'part.json.twig' %}",
+		"part.json.twig": "P{{ v }}",
+		"page.html":      "<p>{{ v }}</p>{% include 'd.json' %}<i>{{ v }}</i>",
+		"child.json":     "{% extends 'd.json' %}{% block b %}C{{ v }}{% endblock %}",
+	}
+	main := []string{"d.json", "page.html", "child.json"}[shape]
+	env := stick.New(&c12loader{tpls})
+	for name, f := range twig.New(nil).Filters {
+		env.Filters[name] = f
+	}
+	ext := twig.NewAutoEscapeExtension()
+	if !late {
+		ext.Escapers["json"] = c12json
+	}
+	if err := env.Register(ext); err != nil {
+		res.Fail("harness", "c12:custom:register", err.Error(), nil)
+		return
+	}
+	if late {
+		ext.Escapers["json"] = c12json
+	}
+	res.AddClass("custom-escaper")
+	res.UniqueNT = 1
+	for _, payload := range c12Payloads {
+		J, H := c12json(payload), escape.HTML(payload)
+		// the explicit escape for html of a value in a json template is then escaped for json as well (html-safe is
+		// not json-safe): both readings of "exactly once" are about direct prints, which is what is compared exactly
+		d := J + "|" + J + "|" + J + J + "|" + J + "|" + J + "|" + c12json(H) + "|P" + J
+		want := d
+		switch shape {
+		case 1:
+			want = "<p>" + H + "</p>" + d + "<i>" + H + "</i>"
+		case 2:
+			want = J + "|" + J + "|" + J + J + "|C" + J + "|" + J + "|" + c12json(H) + "|P" + J
+		}
+		var buf bytes.Buffer
+		err := env.Execute(main, &buf, map[string]stick.Value{"v": payload})
+		res.Evals++
+		if err != nil || buf.String() != want {
+			res.Fail("custom-escaper", fmt.Sprintf("c12:custom:%d:%v:%q", shape, late, payload), fmt.Sprintf("an escaper registered under 'json' (%s the extension was registered with the environment), template %s, value %q: output %q (error %v), want %q", map[bool]string{false: "before", true: "after"}[late], main, payload, buf.String(), err, want), tpls)
+		}
+	}
+}
+
 func (p *c12) Describe(i int) interface{} {
+	if i >= p.nEnum+p.nRand+p.nProg {
+		j := i - p.nEnum - p.nRand - p.nProg
+		return map[string]interface{}{"kind": "an application's own escaper for its own content type", "registered_after_the_extension": j%2 == 1, "shape": j / 2}
+	}
 	if i >= p.nEnum+p.nRand {
 		src, _ := p.program(i)
 		return map[string]interface{}{"kind": "random program with inert own text, hostile context", "templates": src}
@@ -501,6 +561,10 @@ func (l *c12loader) Load(name string) (stick.Template, error) {
 }
 
 func (p *c12) Run(i int) (res fw.Result) {
+	if i >= p.nEnum+p.nRand+p.nProg {
+		p.runCustom(&res, i-p.nEnum-p.nRand-p.nProg)
+		return
+	}
 	if i >= p.nEnum+p.nRand {
 		p.runProgram(&res, i)
 		return
